@@ -104,6 +104,20 @@ func Index() *Prog {
 	)
 }
 
+// Chain: the output map reads only other modules (a mapper's output and a store), no block source and no clock: its
+// segment jobs are fed from cached outputs instead of the block stream (tier2's canSkipBlockSource path).
+func Chain(init uint64) *Prog {
+	return mk(fmt.Sprintf("chain-%d", init), map[string]*Body{
+		"src": {Emit: Cat(Lit("b"), Num())},
+		"acc": {Ops: []OpT{{T: "w", Key: Lit("n"), Val: Lit("1"), Ord: 0}, {T: "w", Key: Cat(Lit("k"), Mod(2)), Val: Num(), Ord: 1}}},
+		"m":   {Emit: Cat(Num(), Lit(" src="), In("src"), Lit(" n="), Get(0, "last", Lit("n"), 0), Lit(" k1="), Get(0, "last", Lit("k1"), 0))},
+	}, "m",
+		modgen.Map("src", init, modgen.Src()),
+		modgen.Store("acc", init, pAdd, "int64", modgen.MapIn("src")),
+		modgen.Map("m", init, modgen.MapIn("src"), modgen.StoreIn("acc", false)),
+	)
+}
+
 // Index2: two block-index modules computed by the same segment job, sharing the key name "k" on different blocks
 // (idxa: even blocks; idxb: blocks = 1 mod 3), and modules filtered on that key through each of them.
 func Index2() *Prog {
